@@ -2085,3 +2085,25 @@ func specIsEnvStringer(x any) bool { _, ok := x.(native.EnvStringer); return ok 
 //@   opt stable VM Function
 //@   panics allowed
 //@   callassert[C05] v.Len 0 kind != reflect.Pointer || v.IsValid()
+
+// ---------------------------------------------------------------------------
+// C13 in the interpreter loop: an error of the output (the renderer's writes,
+// and the Markdown converter writing a macro's result to the caller's writer)
+// is raised as an outError, which VM.Run turns into the error Run returns; any
+// other panic value would reach the host as a fatal error.
+// ---------------------------------------------------------------------------
+
+//@ clause (*VM).run/case OpShow
+//@   props X00 C13
+//@   panics allowed
+//@   panicpost[C13] specIsOut(panicval)
+
+//@ clause (*VM).run/case OpText
+//@   props X00 C13
+//@   panics allowed
+//@   panicpost[C13] specIsOut(panicval)
+
+//@ clause (*VM).run/case OpReturn
+//@   props X00 C13
+//@   panics allowed
+//@   panicpost[C13] specIsOut(panicval)
